@@ -6,7 +6,7 @@ WT=/tmp/cf_$SID
 git -C /repo worktree remove --force $WT 2>/dev/null
 git -C /repo worktree add -q $WT HEAD || exit 2
 cd $WT
-export PYTHONPATH=$WT/src PYTHONWARNINGS=ignore
+export PYTHONPATH=$WT/src PYTHONWARNINGS=ignore NUMBA_NUM_THREADS=4 OMP_NUM_THREADS=4 OMP_WAIT_POLICY=passive
 /venv/bin/python $SRC/demo.py > /tmp/cf_$SID.clean.log 2>&1; RC_CLEAN=$?
 git apply $SRC/patch.diff || { echo "patch failed"; git -C /repo worktree remove --force $WT; exit 2; }
 /venv/bin/python $SRC/demo.py > /tmp/cf_$SID.patched.log 2>&1; RC_PATCHED=$?
